@@ -4,6 +4,7 @@ import (
 	"fmt"
 	"math/rand"
 	"sort"
+	"strings"
 	"time"
 )
 
@@ -569,6 +570,12 @@ func genTamper(rng *rand.Rand, seed int64) *Scenario {
 			sc.Steps = append(sc.Steps, Step{At: t, Kind: "extdelete", Key: "g"})
 		} else {
 			v := tamperValues[rng.Intn(len(tamperValues))]
+			if rng.Intn(3) == 0 {
+				// (more often than the table alone would: values forged by somebody who knows the leader's token)
+				for try := 0; try < 8 && !strings.Contains(v, "TOK1"); try++ {
+					v = tamperValues[rng.Intn(len(tamperValues))]
+				}
+			}
 			if rng.Intn(8) == 0 {
 				v = `{"id":"i1","token":"` + string(make([]byte, 0)) + `big","pad":"` + bigString(1<<16) + `"}`
 			}
@@ -1119,6 +1126,13 @@ func genRestart(rng *rand.Rand, seed int64) *Scenario {
 		who = 2
 	}
 	sc.Steps = append(sc.Steps, Step{At: t2, Kind: "stopctx", Inst: who, Del: true, Wait: rng.Intn(2) == 0})
+	if rng.Intn(4) == 0 {
+		// the answer to that stop call's Delete is lost: the record is gone, the other instance takes over, the call runs
+		// into its time-out - whatever it does next must leave the successor's record alone
+		sc.Lat[who] = LatSpec{Min: 1 * ms, Max: h / 8, FaultProb: 1, Faults: []string{"acklost"}, From: t2, To: t2 + 4*time.Second}
+		sc.Responsive, sc.FaultFree = false, false
+		sc.FaultsEnd = t2 + 4*time.Second + 1
+	}
 	if rng.Intn(3) == 0 {
 		sc.Steps = append(sc.Steps, Step{At: t2 + h + time.Duration(rng.Int63n(int64(2*h))), Kind: "start", Inst: who})
 	}
